@@ -44,19 +44,17 @@ AllOperands == UNION {OperandsOf(sh) : sh \in Shapes}
 
 \* compact form -> exact arrays
 GQ(q) == <<Q(q[1], q[3]), Q(q[2], q[3])>>
-Ex(a) == [sh |-> a.sh, e |-> [i \in 1..Len(a.e) |-> GQ(a.e[i])]]
+Ex(a) == [sh |-> a.sh, e |-> Tup([i \in 1..Len(a.e) |-> GQ(a.e[i])], Len(a.e))]
 
 \* ---- part pow: all 2 x 2 matrices over a small entry set
-PowEntries == IF Big THEN {<<-2, 0, 1>>, <<-1, 0, 1>>, <<0, 0, 1>>, <<1, 0, 1>>, <<2, 0, 1>>,
-                           <<0, 1, 1>>, <<1, 1, 1>>, <<0, -1, 1>>}
-              ELSE {<<-1, 0, 1>>, <<0, 0, 1>>, <<1, 0, 1>>, <<2, 0, 1>>, <<0, 1, 1>>}
-IsRealEntry(q) == q[2] = 0
-\* all-real or over the "complex" subset {0, 1, i, 1+i, -i}: keeps the count at |R|^4 + |C|^4
-CplxEntries == {q \in PowEntries : q[1] \in {0, 1} /\ (q[2] # 0 \/ q[1] \in {0, 1})}
-PowRow == {<<p, q>> : p, q \in {x \in PowEntries : IsRealEntry(x)}} \cup {<<p, q>> : p, q \in CplxEntries}
+RealEntries == IF Big THEN {<<-2, 0, 1>>, <<-1, 0, 1>>, <<0, 0, 1>>, <<1, 0, 1>>, <<2, 0, 1>>}
+               ELSE {<<-1, 0, 1>>, <<0, 0, 1>>, <<1, 0, 1>>, <<2, 0, 1>>}
+CplxEntries == IF Big THEN {<<0, 0, 1>>, <<1, 0, 1>>, <<0, 1, 1>>, <<1, 1, 1>>, <<0, -1, 1>>}
+               ELSE {<<0, 0, 1>>, <<1, 0, 1>>, <<0, 1, 1>>}
+PowRow == {<<p, q>> : p, q \in RealEntries} \cup {<<p, q>> : p, q \in CplxEntries}
 Exponents == {Sc(-2, 0, 1), Sc(-1, 0, 1), Sc(0, 0, 1), Sc(1, 0, 1), Sc(2, 0, 1), Sc(3, 0, 1), Sc(1, 0, 2), Sc(0, 1, 1)}
              \cup (IF Big THEN {Sc(-3, 0, 1), Sc(4, 0, 1), Sc(5, 0, 2), Sc(-1, 0, 2)} ELSE {})
-SameField(r1, r2) == (\A i \in 1..2 : IsRealEntry(r1[i]) /\ IsRealEntry(r2[i]))
+SameField(r1, r2) == (\A i \in 1..2 : r1[i] \in RealEntries /\ r2[i] \in RealEntries)
                      \/ (\A i \in 1..2 : r1[i] \in CplxEntries /\ r2[i] \in CplxEntries)
 
 \* ---- part chain
@@ -83,11 +81,10 @@ AllowedFor(call, flagInside) ==
 VARIABLES c, out
 
 Seeds ==
-  IF Part = "bin" THEN {[kind |-> "seed", op |-> op, xsh |-> sh, neg |-> ng] :
-                          op \in Ops, sh \in Shapes, ng \in BOOLEAN} \ {s \in [kind : {"seed"}, op : Ops \ {"^"}, xsh : Shapes, neg : {FALSE}] : TRUE}
+  IF Part = "bin" THEN {s \in [kind : {"seed"}, op : Ops, xsh : Shapes, neg : BOOLEAN] : s.neg \/ s.op = "^"}
   ELSE IF Part = "pow" THEN {[kind |-> "seed", r1 |-> r, neg |-> ng] : r \in PowRow, ng \in BOOLEAN}
   ELSE IF Part = "chain" THEN {[kind |-> "seed", n |-> n, ops |-> ops] : n \in ChainDims, ops \in UNION {OpPatterns(L) : L \in 2..4}}
-  ELSE {[kind |-> "scope", flag |-> TRUE, hist |-> <<>>]}
+  ELSE {[kind |-> "scope", flag |-> TRUE, inside |-> "none", hist |-> <<>>]}
 
 Init == c \in Seeds /\ out = (IF Part = "scope" THEN <<>> ELSE [k |-> "seed"])
 
@@ -97,15 +94,20 @@ NextPow == /\ c' \in [kind : {"pow"}, neg : {c.neg}, r1 : {c.r1}, r2 : {r \in Po
            /\ out' = Op("^", Ex([sh |-> <<2, 2>>, e |-> c'.r1 \o c'.r2]), Ex(c'.y), c'.neg)
 NextChain == /\ c' \in [kind : {"chain"}, n : {c.n}, ops : {c.ops}, xs : [1..(Len(c.ops) + 1) -> ChainOperands(c.n)],
                         grp : Groups(Len(c.ops) + 1)]
-             /\ out' = GroupedChain([i \in 1..Len(c'.xs) |-> Ex(c'.xs[i])], c'.ops, c'.grp, TRUE)
-\* scope machine: one step = one complete call; the grader call is modelled as enter / body / exit(finally)
-NextScope == /\ Len(c.hist) < MaxHist
-             /\ \E call \in CallKinds :
-                  LET entered == IF call \in {"gd_neg", "gd_pos", "gd_shape"} THEN FALSE
-                                 ELSE IF call = "ge_neg" THEN TRUE ELSE c.flag      \* value of the switch inside the call
-                      after == IF call \in {"op_neg", "op_pos"} THEN c.flag ELSE TRUE \* exit restores the default
-                  IN /\ c' = [kind |-> "scope", flag |-> after, hist |-> Append(c.hist, call)]
-                     /\ out' = Append(out, AllowedFor(call, entered))
+             /\ out' = GroupedChain(Tup([i \in 1..Len(c'.xs) |-> Ex(c'.xs[i])], Len(c'.xs)), c'.ops, c'.grp, TRUE)
+\* scope machine: a direct operation is one step; a grader call is  enter (set the switch) ; body+exit (restore)
+IsGraderCall(call) == call \in {"gd_neg", "gd_pos", "gd_shape", "ge_neg"}
+NextScope ==
+  \/ /\ c.inside = "none" /\ Len(c.hist) < MaxHist
+     /\ \E call \in CallKinds :
+          IF IsGraderCall(call)
+          THEN /\ c' = [c EXCEPT !.inside = call, !.flag = (call = "ge_neg")]       \* enter: switch := configured value
+               /\ out' = out
+          ELSE /\ c' = [c EXCEPT !.hist = Append(c.hist, call)]
+               /\ out' = Append(out, AllowedFor(call, c.flag))
+  \/ /\ c.inside # "none"                                                         \* body, then exit on every path
+     /\ c' = [c EXCEPT !.inside = "none", !.flag = TRUE, !.hist = Append(c.hist, c.inside)]
+     /\ out' = Append(out, AllowedFor(c.inside, c.flag))
 Next == IF Part = "scope" THEN NextScope
         ELSE /\ c.kind = "seed"
              /\ IF Part = "bin" THEN NextBin ELSE IF Part = "pow" THEN NextPow ELSE NextChain
@@ -127,11 +129,11 @@ InvMulTranspose == (IsBin /\ c.op = "*") => (LawMulTranspose(X, Y) /\ LawScale(X
 InvDiv == (IsBin /\ c.op = "/") => (LawDivMul(X, Y) /\ LawDivArray(X, Y))
 InvPow == (IsBin /\ c.op = "^" /\ ~(c.x.sh = <<>> /\ c.y.sh = <<>>)) => LawPow(X, Y, c.neg)
 InvPow2 == (c.kind = "pow") => LawPow(PowX, Ex(c.y), c.neg)
-InvChain == (c.kind = "chain") => LawChain([i \in 1..Len(c.xs) |-> Ex(c.xs[i])], c.ops, TRUE)
+InvChain == (c.kind = "chain") => LawChain(Tup([i \in 1..Len(c.xs) |-> Ex(c.xs[i])], Len(c.xs)), c.ops, TRUE)
 InvGroupFlat == (c.kind = "chain" /\ c.grp = <<0, 0>>) =>
-                   SameOutcome(out, ChainProduct([i \in 1..Len(c.xs) |-> Val(Ex(c.xs[i]))], c.ops, TRUE))
+                   SameOutcome(out, ChainProduct(Tup([i \in 1..Len(c.xs) |-> Val(Ex(c.xs[i]))], Len(c.xs)), c.ops, TRUE))
 \* scope: between calls the switch is always at its default, whatever happened inside the calls
-InvScopeDefault == (c.kind = "scope") => (c.flag = TRUE /\ Len(out) = Len(c.hist))
+InvScopeDefault == (c.kind = "scope" /\ c.inside = "none") => (c.flag = TRUE /\ Len(out) = Len(c.hist))
 InvScopeLocal == (c.kind = "scope") =>
                     \A i \in 1..Len(c.hist) : out[i] = AllowedFor(c.hist[i], c.hist[i] \notin {"gd_neg", "gd_pos", "gd_shape"})
 =============================================================================
